@@ -412,9 +412,8 @@ pub fn run<S: Src, const FAM: u8, const MUT: bool, const INIT: bool, const ANN: 
     match (FAM, MUT) {
         (UNION, false) => {
             let mut it = if INIT {
-                let mut it = ma.__verif_view(t.la.virt, t.la.idx).union(mb.__verif_view(t.lb.virt, t.lb.idx));
-                it.__verif_rehome(K1 + 1);
-                it
+                // Init only reads the stack back: no next() is called, so no re-homing is needed
+                ma.__verif_view(t.la.virt, t.la.idx).union(mb.__verif_view(t.lb.virt, t.lb.idx))
             } else {
                 let mut v: Vec<((u8, usize, usize), Option<usize>, Option<usize>)> = Vec::with_capacity(K1 + 1);
                 let mut i = 0;
@@ -597,7 +596,7 @@ pub fn run<S: Src, const FAM: u8, const MUT: bool, const INIT: bool, const ANN: 
     let sel_x = t.selected_l::<FAM>(x);
 
     if INIT {
-        check!(s, t.stack_inv::<FAM, ANN, K1>(&post, plen), "C05,C06,C07,C08:constructor establishes the stack invariant (kinds, order, closure, LPM seeds)");
+        check!(s, t.stack_inv::<FAM, ANN, K1>(&post, plen), "C05,C06,C07,C08,C18:constructor establishes the stack invariant (kinds, order, closure, LPM seeds)");
         match FAM {
             UNION => {
                 check!(s, post_l == t.ent_l(x) && post_r == t.ent_r(y), "C05:initially every entry of both views remains to be visited");
@@ -856,7 +855,7 @@ pub fn helper<S: Src, const FAM: u8, const WHICH: u8, const N: usize>(s: &mut S)
         i += 1;
     }
     check!(s, ok_scope, "C05,C06,C07:helper results stay inside the two sub-trees");
-    check!(s, ok_kind, "C05,C06,C07:helper results are classified by length, containment and network order");
+    check!(s, ok_kind, "C05,C06,C07,C18:helper results are classified by length, containment and network order (host bits ignored)");
     check!(s, ok_order, "C05,C06,C07:helper results are pushed in descending lexicographic order with disjoint anchors");
     check!(s, ok_closed, "C05,C06,C07:every entry under the anchor of a result stays with that result");
     match FAM {
@@ -866,7 +865,7 @@ pub fn helper<S: Src, const FAM: u8, const WHICH: u8, const N: usize>(s: &mut S)
         }
         INTER => {
             if ex && ey && same(&t.a[x].0, &t.b[y].0) {
-                check!(s, cov_x && cov_y, "C06:no common entry of the scope is pruned");
+                check!(s, cov_x && cov_y, "C06,C18:no common entry of the scope is pruned");
             }
         }
         _ => {
